@@ -362,12 +362,13 @@ Proof.
     exact H.
 Qed.
 
-(** factors and crossing are in order: validity reduces to the constraints *)
-Theorem f0_valid_base : valid_b S0 s = forallb (constraint_ok S0 s) (s_constraints S0).
+(** factors and the sampled crossing are in order: validity reduces to the other crossings and the constraints *)
+Theorem f0_valid_base : valid_b S0 s =
+  forallb (crossing_ok S0 s) (f0_ocrossings fb) && forallb (constraint_ok S0 s) (s_constraints S0).
 Proof.
   unfold valid_b. rewrite tseq_length, (f0_sem_factors_length fb HF), Nat.eqb_refl.
   rewrite (f0_sem_crossings fb HF). cbn [forallb andb].
-  rewrite f0_crossing_ok. cbn [andb]. rewrite !andb_true_r.
+  rewrite f0_crossing_ok. cbn [andb].
   replace (forallb (fun p => factor_ok S0 s (fst p) (snd p)) (index_list (s_factors S0))) with true; [reflexivity|].
   symmetry. apply forallb_forall. intros [f fd] Hin. cbn [fst snd].
   unfold index_list in Hin. apply In_nth_error in Hin. destruct Hin as [i Hi].
